@@ -222,13 +222,60 @@ fn detinv_f(t: &mut Toks, cx: &mut Ctx) -> String {
     out
 }
 
+/// exact arithmetic in Q(i) for the complex oracle
+type Qi = (Q, Q);
+fn qi_mul(a: Qi, b: Qi) -> Qi { (a.0 * b.0 - a.1 * b.1, a.0 * b.1 + a.1 * b.0) }
+fn qi_sub(a: Qi, b: Qi) -> Qi { (a.0 - b.0, a.1 - b.1) }
+fn qi_div(a: Qi, b: Qi) -> Qi { let d = b.0 * b.0 + b.1 * b.1; let n = qi_mul(a, (b.0, -b.1)); (n.0 / d, n.1 / d) }
+fn qi_zero(a: Qi) -> bool { a.0.is_zero() && a.1.is_zero() }
+/// determinant over Q(i) by elimination with the first non-zero pivot
+fn exact_det_qi(a: &Vec<Vec<Qi>>) -> Qi {
+    let n = a.len(); let mut m = a.clone(); let mut det: Qi = (Q::int(1), Q::int(0));
+    for c in 0..n {
+        let p = match (c..n).find(|r| !qi_zero(m[*r][c])) { Some(p) => p, None => return (Q::int(0), Q::int(0)) };
+        if p != c { m.swap(p, c); det = (-det.0, -det.1); }
+        det = qi_mul(det, m[c][c]);
+        for r in c + 1..n { let f = qi_div(m[r][c], m[c][c]); for k in c..n { let t = qi_mul(f, m[c][k]); m[r][k] = qi_sub(m[r][k], t); } }
+    }
+    det
+}
+
+fn detinv_c(t: &mut Toks, cx: &mut Ctx) -> String {
+    let mut t3 = t.clone_rest();
+    let out = detinv::<Cmplx>(t, cx);
+    let a: Matrix<Cmplx> = rd_mat(&mut t3);
+    let n = a.rows();
+    if n == a.cols() && n > 0 {
+        let mut rows: Vec<Vec<Qi>> = Vec::new(); let mut exact = true;
+        for i in 0..n { let mut r = Vec::new(); for j in 0..n { match (to_q(a[(i, j)].real), to_q(a[(i, j)].imag)) { (Some(x), Some(y)) => r.push((x, y)), _ => { exact = false; r.push((Q::int(0), Q::int(0))) } } } rows.push(r); }
+        if exact { if let Ok(det) = guarded(|| exact_det_qi(&rows)) {
+            let (dr, di) = (det.0.to_f64(), det.1.to_f64());
+            let scale: f64 = (0..n).map(|i| (0..n).map(|j| a[(i, j)].mag64()).fold(0.0, f64::max).max(1e-300)).product();
+            match guarded(|| a.determinant()) {
+                Ok(x) => cx.check(((x.real - dr).powi(2) + (x.imag - di).powi(2)).sqrt() <= 1e-10 * scale.max((dr * dr + di * di).sqrt()), &format!("complex determinant ({:e},{:e}) far from the exact value ({:e},{:e})", x.real, x.imag, dr, di)),
+                Err(c) => cx.fail(format!("determinant panicked ({})", c)) }
+            if !qi_zero(det) {
+                if let Ok(inv) = guarded(|| a.inverse()) {
+                    let i1 = &a * &inv; let i2 = &inv * &a;
+                    let nrm = |m: &Matrix<Cmplx>| (0..n).map(|i| (0..n).map(|j| m[(i, j)].mag64()).sum::<f64>()).fold(0.0, f64::max);
+                    let cond = nrm(&a) * nrm(&inv);
+                    let mut e = 0.0f64;
+                    for i in 0..n { for j in 0..n { let id = if i == j { 1.0 } else { 0.0 }; e = e.max(((i1[(i, j)].real - id).powi(2) + i1[(i, j)].imag.powi(2)).sqrt()).max(((i2[(i, j)].real - id).powi(2) + i2[(i, j)].imag.powi(2)).sqrt()); } }
+                    cx.check(e <= 1e-13 * cond.max(1.0) * n as f64, &format!("complex A*inv(A) off identity by {:e} (cond {:e})", e, cond));
+                } else { cx.fail("inverse of a nonsingular complex matrix panicked"); }
+            }
+        } }
+    }
+    out
+}
+
 pub fn exec(op: &str, t: &mut Toks, cx: &mut Ctx) -> Option<String> {
     match op {
         "solve" => { let tag = t.next(); Some(match tag {
             "q" => solve_q(t, cx),
             "f" => solve_f::<f64>(t, cx, |x| to_q(*x).map(|q| (q, Q::int(0)))),
             _ => solve_f::<Cmplx>(t, cx, |_| None) }) }
-        "detinv" => { let tag = t.next(); Some(match tag { "q" => detinv_q(t, cx), "f" => detinv_f(t, cx), _ => detinv::<Cmplx>(t, cx) }) }
+        "detinv" => { let tag = t.next(); Some(match tag { "q" => detinv_q(t, cx), "f" => detinv_f(t, cx), _ => detinv_c(t, cx) }) }
         _ => None,
     }
 }
